@@ -233,12 +233,17 @@ CHECKS["C19"] = dict(
     text=("Theorems over the model of the converted content (shared by both languages): every mass/width variable an emitted lineshape "
           "uses belongs to a particle seen while reading and is declared in the intro unless it is an event-type particle; the two "
           "coefficient names of an amplitude differ; one declaration per parameter line with the error exactly for free parameters. "
+          "DECLARATION BEFORE USE (Amp/Symbols.v, Amp/SymbolsProofs.v): the output's model symbols in text order — constants, resonance "
+          "variables, the particle_masses line, one variable per parameter line, the spline / f_scatt / IS_poles arrays with their members, "
+          "then what each kind of lineshape names — and the theorem that, for every file that defines what its lineshapes need (spline "
+          "constants; sA_0, sA, s0_prod, s0_scatt and a member of each array family for a K-matrix; no resonance named like an event-type "
+          "particle), every use has an earlier declaration, in whatever order the groups Python leaves unordered come out. "
           "The correspondence parses BOTH generated texts into content (event type, constants, variables, parameter declarations, "
-          "amplitudes with spin factors / lineshapes / counts) and compares each with the model. Executed only: declaration-before-use "
-          "incl. spline / K-matrix arrays, execution of the Python text against a stand-in goofit module, returned string = printed "
-          "text, command-line entry point."),
+          "amplitudes with spin factors / lineshapes / counts) and into this symbol structure (what each section declares, what each "
+          "lineshape uses, sections in order) and compares each with the model. Executed only: the order of the members inside an array, "
+          "execution of the Python text against a stand-in goofit module, returned string = printed text, command-line entry point."),
     design="DESIGN.md §5 C19",
-    technique="Coq proof (closedness of the generated model over expanded amplitudes) + differential correspondence on both parsed outputs + executed output checks")
+    technique="Coq proof (closedness of the generated model over expanded amplitudes; scoping of the symbol sequence by a defs-carrying predicate, invariant under permutation of unordered groups) + differential correspondence on both parsed outputs + executed output checks")
 CHECKS["C20"] = dict(
     text=("Theorems over the session state machine (per-class particle sets with attribute lookup through the class hierarchy, coupling "
           "configuration, tables of the last read): after ANY history of read / convert calls by any of the three classes, a call returns "
